@@ -65,6 +65,8 @@ def register(it, data: VBytes, value: V):
     if data.conc is None:
         it.enc_origins = getattr(it, "enc_origins", {})
         it.enc_origins[data.e.sexpr()] = value
+        it.enc_origin_terms = getattr(it, "enc_origin_terms", {})
+        it.enc_origin_terms[data.e.sexpr()] = (data.e, value)
 
 
 def enc(it, v: V) -> VBytes:
@@ -90,7 +92,7 @@ def _enc(it, v: V) -> VBytes:
             return head(it, 0, v)
         return head(it, 1, VInt(-1 - v.e))
     if isinstance(v, VBytes):
-        n = stubs.bytes_len(v)
+        n = stubs.bytes_len_k(it, v)
         _len_ok(it, n)
         return cat(head(it, 2, n), v)
     if isinstance(v, VStr):
@@ -180,5 +182,10 @@ def loads(it, data: V) -> V:
     o = origins.get(data.e.sexpr())
     if o is not None:
         return decoded_copy(o)
+    # semantic lookup: the bytes are provably equal to a known encoding (e.g. stated by a precondition)
+    if len(origins) <= 12:
+        for key, (term, val) in getattr(it, "enc_origin_terms", {}).items():
+            if it.must(data.e == term):
+                return decoded_copy(val)
     from . import plain
     return plain.loads(it, data)
